@@ -38,15 +38,46 @@
         s is well-formed XML 1.0 and violates a namespace constraint (the classifiers of findings
         WFNS20-23 are exactly this).  WF13 cannot occur without a DOCTYPE.
 
+    (5) round 2 -- RUNG 2 (SYNTAX) FOR EVERY DOCUMENT, with or without a document type declaration
+        ([syntax_partial], [accepted_is_syntactically_wellformed_partial]): every accepted input outside
+        finding D04 ([KnownD04_doc s = false]: the names at the eight Name positions -- entity, notation,
+        NDATA and NOTATION-type names, PI targets, entity references in content, attribute values,
+        default values and entity values -- are Names) is accepted by the GRAMMAR of the specification,
+        [Spec.XmlWF.parse_document s = Some (x_doc pd)], where [x_doc pd] is the translation of the typed
+        document: DOCTYPE with external identifier, internal subset with ELEMENT (EMPTY, ANY, Mixed,
+        children: cp / choice / seq to any depth), ATTLIST (all attribute types and defaults), general
+        ENTITY (literal, external, unparsed), NOTATION, PIs, comments.  Parameter-entity declarations
+        and references are refused by XmlDocument::new ([build_document_ok]), so no hypothesis about
+        them is left.
+
+    (6) round 2 -- THE CONDITIONAL THEOREM FOR DOCUMENTS WITH A DOCTYPE whose declared internal general
+        entities have PLAIN replacement text ([plain_entities s]: the replacement text of every
+        `<!ENTITY n "...">` is a string of Chars without `&`, `<` and `]]>`, written directly or as a
+        character reference), all three rungs:
+          accepted_is_wellformed_plain_partial :
+            forall s d, from_raw s = OOk ([], d) -> KnownD04_doc s = false -> plain_entities s = true ->
+              KnownNS s = false -> wf s = true
+        ([accepted_is_wf_xml10_plain_partial] without the namespace hypothesis).  Rung 3 here
+        ([constraints_plain_partial]): the internal subset in declaration order (Legal Character in
+        entity values; default values checked against the entities declared BEFORE the ATTLIST:
+        No < in Attribute Values, No External Entity References, Entity Declared), then the element
+        tree against the declared + predefined entities (Entity Declared also when an external
+        subset / standalone changes what must be declared, Parsed Entity, replacement text matches
+        content), Element Type Match, Unique Att Spec.  It subsumes (4).
+        [plain_entities] excludes finding WF13 (a referenced entity whose replacement text contains
+        `&` or `<`) and MORE: every document that declares an entity with markup or a nested
+        reference in its value, well-formed or not.
+
     Missing for the full conditional theorem
       forall s d, Known_C02 s = false -> from_raw s = OOk ([], d) -> wf s = true :
-    the DOCTYPE rung (internal subset declarations, the entity-related constraints with WF13
-    excluded).  Documents with a DOCTYPE are covered by the failing-input search of checks/C02.py
+    rung 3 for entities whose replacement text contains references or markup (No Recursion through
+    nested references; constraints inside the markup of replacement text, which is finding WF13).  Documents with a DOCTYPE are covered by the failing-input search of checks/C02.py
     (specification vs implementation, with expat as independent oracle of the specification). *)
 From Coq Require Import List NArith Bool.
 From XmlRs Require Import Base.CPred Spec.XmlChars Spec.XmlWF Model.Peg Gen.GrammarXmlGen Model.ParseActions Model.Info
   Proofs.NameLanguage Proofs.XmlWFLexical Proofs.XmlWFModel Proofs.ParseInvElem
-  Proofs.XmlWFSyntaxLex Proofs.XmlWFSyntaxElem Proofs.XmlWFSyntaxDoc Proofs.XmlWFSyntaxCheck.
+  Proofs.XmlWFSyntaxLex Proofs.XmlWFSyntaxElem Proofs.XmlWFSyntaxDoc Proofs.XmlWFSyntaxCheck
+  Proofs.XmlWFSyntaxDtd Proofs.XmlWFSyntaxDtdElem Proofs.XmlWFSyntaxDtdDoc Proofs.XmlWFSyntaxDtdCheck.
 Import ListNotations.
 
 (** ** (3) *)
@@ -146,7 +177,50 @@ Example nodoctype_hypotheses_satisfiable :
   /\ KnownNS ex_nodoctype = false /\ find_sub s_doctype ex_nodoctype = None.
 Proof. exact nodoctype_nonvacuous. Qed.
 
+(** ** (5) rung 2 (syntax) for EVERY document, with or without a document type declaration *)
+Theorem syntax_partial : forall (s : str) (pd : pdoc),
+  ParseActions.parse_document s = POk (pd, []) -> ok_doc pd = true -> Spec.XmlWF.parse_document s = Some (x_doc pd).
+Proof. exact parse_document_syntax. Qed.
+
+(** what the document's acceptance by XmlDocument::new adds: no parameter entities; the exclusion left is D04 *)
+Theorem accepted_is_syntactically_wellformed_partial : forall (s : str) (d : document),
+  from_raw s = OOk ([], d) -> KnownD04_doc s = false ->
+  exists pd, ParseActions.parse_document s = POk (pd, []) /\ build_document pd = IOk d /\ Spec.XmlWF.parse_document s = Some (x_doc pd).
+Proof. exact accepted_syntax. Qed.
+
+Example doctype_hypotheses_satisfiable :
+  (exists d, from_raw ex_doctype = OOk ([], d)) /\ KnownD04_doc ex_doctype = false /\ nodoctype ex_doctype = false.
+Proof. exact accepted_syntax_nonvacuous. Qed.
+
+(** ** (6) rungs 2 and 3 for documents WITH a document type declaration whose internal general entities
+    have plain replacement text (Chars without `&`, `<`, `]]>`) *)
+Theorem constraints_plain_partial : forall (pd : pdoc) (d : document),
+  ParseInvDoc.p_doc_ok pd -> ok_doc pd = true -> plain_doc pd = true -> build_document pd = IOk d ->
+  exists root, check_doc (x_doc pd) = inr root.
+Proof. exact check_doc_plain. Qed.
+
+Theorem accepted_is_wf_xml10_plain_partial : forall (s : str) (d : document),
+  from_raw s = OOk ([], d) -> KnownD04_doc s = false -> plain_entities s = true -> wf_xml10 s = true.
+Proof. exact accepted_wf10_plain. Qed.
+
+Theorem accepted_is_wellformed_plain_partial : forall (s : str) (d : document),
+  from_raw s = OOk ([], d) -> KnownD04_doc s = false -> plain_entities s = true -> KnownNS s = false -> wf s = true.
+Proof. exact accepted_wf_plain. Qed.
+
+Example plain_hypotheses_satisfiable :
+  (exists d, from_raw ex_doctype = OOk ([], d)) /\ KnownD04_doc ex_doctype = false /\ plain_entities ex_doctype = true
+  /\ KnownNS ex_doctype = false.
+Proof.
+  split; [exact (proj1 accepted_syntax_nonvacuous)|]. split; [exact (proj1 (proj2 accepted_syntax_nonvacuous))|].
+  split; [exact (proj1 accepted_wf_plain_nonvacuous)|exact (proj1 (proj2 accepted_wf_plain_nonvacuous))].
+Qed.
+
 Print Assumptions wf_is_wf_xml10.
+Print Assumptions constraints_plain_partial.
+Print Assumptions accepted_is_wf_xml10_plain_partial.
+Print Assumptions accepted_is_wellformed_plain_partial.
+Print Assumptions syntax_partial.
+Print Assumptions accepted_is_syntactically_wellformed_partial.
 Print Assumptions syntax_nodoctype_partial.
 Print Assumptions constraints_nodoctype_partial.
 Print Assumptions accepted_is_wf_xml10_nodoctype_partial.
